@@ -124,8 +124,23 @@ func c18Hashlib(cases []c18PB) (int, error) {
 func c18Stream(rt *rapid.T, hs c18Hash, r io.Reader, okm []byte, desc string) (classes []string, crossed, touched bool, err error) {
 	limit := 255 * hs.size
 	pos := 0
+	// One caller buffer is reused for all reads of a history; it holds stale
+	// bytes before each Read and is scribbled over after each one (the stream
+	// must not depend on what the caller does with returned buffers).
+	var scratch []byte
+	reads := 0
 	read := func(n int, class string) error {
-		p := filled(n)
+		reads++
+		if cap(scratch) < n || reads%3 == 0 {
+			scratch = make([]byte, n+64)
+		}
+		p := scratch[:n]
+		copy(p, filled(n))
+		defer func() {
+			for i := range p {
+				p[i] ^= 0x5c
+			}
+		}()
 		var got int
 		var rerr error
 		if e := catch(func() { got, rerr = r.Read(p) }); e != nil {
@@ -232,6 +247,7 @@ func TestC18(t *testing.T) {
 	pbCap := ev.Scale(40, 300)
 
 	rapid.Check(t, func(rt *rapid.T) {
+		stc := setStale(rt)
 		hs := c18Hashes[rapid.IntRange(0, 2).Draw(rt, "hash")]
 		if rapid.IntRange(0, 2).Draw(rt, "fn") == 2 {
 			pb, kc, err := c18PBKDF2(rt, hs)
@@ -302,7 +318,7 @@ func TestC18(t *testing.T) {
 			head = head[:6]
 		}
 		c.Case(crossed || touched, fmt.Sprintf("hkdf|%s|%s|%s|%v|%v", hs.name, ctor, strings.Join(head, ","), crossed, touched),
-			"fn=hkdf", "hash="+hs.name, "ctor="+ctor, saltClass, infoClass, fmt.Sprintf("hkdf:crossed-partial-block=%v", crossed), fmt.Sprintf("hkdf:limit-touched=%v", touched))
+			"fn=hkdf", "hash="+hs.name, "ctor="+ctor, stc, saltClass, infoClass, fmt.Sprintf("hkdf:crossed-partial-block=%v", crossed), fmt.Sprintf("hkdf:limit-touched=%v", touched))
 		for _, cl := range classes {
 			c.Class("read:" + cl)
 		}
